@@ -208,9 +208,16 @@ func (c *Controller) HandleVisitor(m *msg.NatHoleVisitor, transporter transport.
 		delete(c.sessions, sid)
 	}()
 
+	// the owner may have gone away since the lookup: nobody receives on sidCh any more,
+	// so do not wait for the hand-over longer than for the owner's answer
+	delivered := false
 	if err := errors.PanicToError(func() {
-		clientCfg.sidCh <- sid
-	}); err != nil {
+		select {
+		case clientCfg.sidCh <- sid:
+			delivered = true
+		case <-time.After(time.Duration(NatHoleTimeout) * time.Second):
+		}
+	}); err != nil || !delivered {
 		return
 	}
 
